@@ -2768,7 +2768,7 @@ separator_opt:
   }
 | SEPARATOR string
   {
-    $$ = " separator '"+string($2)+"'"
+    $$ = formatSeparator($2)
   }
 
 when_expression_list:
